@@ -1,4 +1,4 @@
-SPECIFICATION TraceSpec
+SPECIFICATION Spec
 CONSTANTS
   Names = {"a", "b"}
   Values = {"v1", "v2"}
@@ -6,9 +6,7 @@ CONSTANTS
   MaxPathLen = 4
   ModelKinds = {"timeout"}
   ChainLen = 3
-  Changes = {}
+  Changes = {"set", "unset", "replace"}
 INVARIANTS TypeOK DirectMatch LevelByLevel FromLongestPrefix OthersIrrelevant EmptyNeverUsed
 PROPERTIES RepeatSame ChangeRespected CurrentTreeOnly
-CONSTRAINT HWM
-POSTCONDITION TraceAccepted
 CHECK_DEADLOCK FALSE
